@@ -184,6 +184,15 @@ CHECKS = {
         "state, so owning the sequence is enough (no timing involved).",
         ref="DESIGN.md 4/C14",
     ),
+    "C20": dict(
+        cat="exploration",
+        technique="differential testing CLI vs library API (Hypothesis-generated invocations with shuffled options, macro files, binaries, usage errors and failing operations)",
+        text="Each generated invocation of `python -m jasm.main` (scratch cwd; -s/-b, --all-matches, --return_only_address, --macros with 1-2 files incl. files that depend on "
+        "each other and whose names sort differently from the given order) is compared with the API called with the equivalent MatchConfig: verdict line, the sequence of "
+        "'Matched address' payloads, and exit status (0 iff the API did not raise; 2 for usage errors; nothing reported after an error).",
+        note="Trusted: parsing of the CLI's stderr log lines. ~0.15 s per invocation bounds the case count (480 quick, 8000 thorough).",
+        ref="DESIGN.md 4/C20",
+    ),
 }
 
 NOT_APPLICABLE = []
